@@ -353,15 +353,20 @@ class Problem:
                 vals[i - 1] += float(pr)
         return int_weights(vals)
 
-    def make_ag(self, w):
-        """abstract weights -> a concrete agent state of this policy"""
+    def fresh_policy(self):
+        """a new policy object with the same parameters and no call history (reference for the policy's own
+        action_dist / next_agentstate: a policy is a function of the agent state, not of what it was asked before)"""
+        return self._mdp_policy(self.rep["prep"]) if self.m["kind"] == "mdp" else self._pomdp_policy()
+
+    def make_ag(self, w, order=None):
+        """abstract weights -> a concrete agent state of this policy (order: the state order of a Belief)"""
         m = self.m
         tot = sum(w)
         if m["pk"] == "ctrl" and m["sub"] == "fn":
             return self.nodes[w.index(max(w))]
         if m["pk"] == "ctrl":
             return np.array([x / tot for x in w])
-        sl = tuple(self.env.state_list)
+        sl = tuple(self.env.state_list) if not order else tuple(self.slabel[i] for i in order)
         return Belief(sl, tuple(w[self.slabel.index(s)] / tot for s in sl))
 
 
@@ -508,7 +513,8 @@ def mdp_events(prob, steps_like, view):
             break
         s_lab = d.get("state")
         try:
-            supp = prob.supp(("m", prob.sidx(s_lab)), prob.policy.action_dist(s_lab))
+            key = ("m", prob.sidx(s_lab))
+            supp = prob._supp[key] if key in prob._supp else prob.supp(key, prob.fresh_policy().action_dist(s_lab))
         except Exception:                                       # noqa: BLE001 - unknown state label
             supp = []
         ev.append({"k": "step", "s": prob.sidx(s_lab), "a": prob.aidx(d.get("action")),
@@ -520,7 +526,7 @@ def mdp_events(prob, steps_like, view):
 
 def pomdp_events(prob, traj):
     ev = []
-    pol = prob.policy
+    pol = prob.fresh_policy()       # judge against an object without the call history of the roll-outs
     if not traj:
         return ev
     ev.append({"k": "init", "s": prob.sidx(traj[0].state), "ag": prob.proj_ag(traj[0].agentstate)})
@@ -530,7 +536,8 @@ def pomdp_events(prob, traj):
             break
         ag = prob.proj_ag(st.agentstate)
         try:
-            supp = prob.supp(("p", tuple(ag)), pol.action_dist(st.agentstate))
+            key = ("p", tuple(ag))
+            supp = prob._supp[key] if key in prob._supp else prob.supp(key, prob.fresh_policy().action_dist(st.agentstate))
         except Exception:                                       # noqa: BLE001
             supp = []
         try:
@@ -568,7 +575,7 @@ def run_roll(prob, job, script=None):
         kw["initial_state"] = start_label(prob, start)
     ag0 = job.get("ag0") or []
     if m["kind"] == "pomdp" and ag0:
-        kw["initial_agentstate"] = prob.make_ag(ag0)
+        kw["initial_agentstate"] = prob.make_ag(ag0, job.get("agorder"))
     head = dict(kind="roll", iid=job["iid"], cap=cap, start=start, ag0given=1 if ag0 else 0)
     try:
         with warnings.catch_warnings():
@@ -616,6 +623,40 @@ def container_extras(res):
     except Exception as e:                                      # noqa: BLE001
         bad.append(f"raises-{type(e).__name__}")
     return bad
+
+
+SEQREPS = ["list", "tuple", "int-array", "object-array", "float32-array", "float64-array"]
+
+
+def run_returns(job):
+    """a history of Policy.calc_returns calls on ONE reward-sequence object"""
+    vals = [r / job["RD"] for r in job["rs"]] if job["RD"] != 1 else list(job["rs"])
+    rep = job["seqrep"]
+    if rep == "list":
+        obj = list(vals)
+    elif rep == "tuple":
+        obj = tuple(vals)
+    elif rep == "int-array":
+        obj = np.array(vals, dtype=np.int64)
+    elif rep == "object-array":
+        obj = np.array(vals, dtype=object)
+    elif rep == "float32-array":
+        obj = np.array(vals, dtype=np.float32)
+    else:
+        obj = np.array(vals, dtype=np.float64)
+    calls, after, raw = [], [], []
+    try:
+        with warnings.catch_warnings():
+            warnings.simplefilter("ignore")
+            for GN, GD in job["calls"]:
+                calls.append([float(x) for x in Policy.calc_returns(obj, GN / GD)])
+                now = [float(x) for x in obj]
+                raw.append(now)
+                after.append([int(x * job["RD"]) if math.isfinite(x) and x * job["RD"] == int(x * job["RD"])
+                              and abs(x * job["RD"]) < 10 ** 6 else BAD for x in now])
+    except Exception as e:                                      # noqa: BLE001
+        return dict(error=f"{type(e).__name__}: {e}"[:300])
+    return dict(calls=calls, after=after, after_raw=raw)
 
 
 def table_to_dict(prob, table, two=False):
@@ -885,20 +926,14 @@ class Pipeline:
         self.jobs.append(job)
         kind = job["kind"]
         if kind == "ret":
-            try:
-                with warnings.catch_warnings():
-                    warnings.simplefilter("ignore")
-                    got = [float(x) for x in Policy.calc_returns([r / job["RD"] for r in job["rs"]] if job["RD"] != 1
-                                                                 else list(job["rs"]), job["GN"] / job["GD"])]
-                out = dict(returns=got)
-            except Exception as e:                              # noqa: BLE001
-                out = dict(error=f"{type(e).__name__}: {e}"[:300])
-            if self.tamper.get("kind") == "ret-value" and out.get("returns"):
-                out["returns"][0] += 1e-3
-            ctx.evaluations += 1
+            out = run_returns(job)
+            if self.tamper.get("kind") == "ret-value" and out.get("calls"):
+                out["calls"][0][0] += 1e-3
+            ctx.evaluations += len(job["calls"])
             self.outs[ji] = out
             self.owner.append((ji, "ret"))
-            self.traces.append(dict(kind="ret", rs=job["rs"], GN=job["GN"], GD=job["GD"]))
+            self.traces.append(dict(kind="ret", rs=job["rs"], calls=job["calls"],
+                                    after=out.get("after") or [job["rs"]] * len(job["calls"])))
             return
         prob = self.problem(job)
         if kind == "eval":
@@ -1183,24 +1218,36 @@ class Pipeline:
         out = self.outs[ji]
         if out.get("error"):
             return
-        g = F(job["GN"], job["GD"])
-        exact = [fr(x) for x in v["rets"]]
-        direct = [fr(x) for x in v["direct"]]
-        mine = py_returns(job["rs"], g)
-        if exact != mine or direct != mine:
-            raise TLCFailure(f"TLA+ returns {exact} / {direct} differ from the Fraction recursion {mine}")
-        exact = [x / job["RD"] for x in exact]
         scale = sum(abs(r) for r in job["rs"]) / job["RD"]
-        got = out["returns"]
-        if len(got) != len(exact) or not all(close(x, e, scale) for x, e in zip(got, exact)):
-            shape = "gamma1" if g == 1 else ("gamma0" if g == 0 else "discounted")
-            ctx.violation(f"C14:Policy.calc_returns:returns-differ-from-backward-recursion:{shape}",
-                          f"calc_returns({[r / job['RD'] for r in job['rs']]}, {float(g)}) = {got}, backward recursion "
-                          f"gives {[str(x) for x in exact]}", self.case_of(ji))
+        changed = any(f["c"] == "reward-sequence-changed-by-the-call" for f in v["fails"])
+        ok = True
+        for c, ((GN, GD), tl, got) in enumerate(zip(job["calls"], v["calls"], out["calls"])):
+            g = F(GN, GD)
+            exact = [fr(x) for x in tl["rets"]]
+            direct = [fr(x) for x in tl["direct"]]
+            mine = py_returns(job["rs"], g)
+            if exact != mine or direct != mine:
+                raise TLCFailure(f"TLA+ returns {exact} / {direct} differ from the Fraction recursion {mine}")
+            exact = [x / job["RD"] for x in exact]
+            if len(got) != len(exact) or not all(close(x, e, scale) for x, e in zip(got, exact)):
+                shape = "gamma1" if g == 1 else ("gamma0" if g == 0 else "discounted")
+                if c > 0:
+                    shape = f"{job['seqrep']}+sequence-object-used-again" + ("+changed-in-place" if changed else "")
+                ctx.violation(f"C14:Policy.calc_returns:returns-differ-from-backward-recursion:{shape}",
+                              f"call {c + 1} of {len(job['calls'])} on the same {job['seqrep']} reward sequence "
+                              f"{[r / job['RD'] for r in job['rs']]}: calc_returns(rewards, {float(g)}) = {got}, backward "
+                              f"recursion of the rewards gives {[str(x) for x in exact]}"
+                              + (f"; the caller's sequence held {out['after_raw'][:c + 1]} after the calls" if changed else ""),
+                              self.case_of(ji))
+                ok = False
+                break
+        if not ok:
             return
+        if changed:
+            self.flag("calc_returns-changes-its-argument", ji)
         ctx.validated += 1
         if len(job["rs"]) >= 2:
-            ctx.nontrivial(("ret", tuple(job["rs"]), job["GN"], job["GD"], job["RD"]))
+            ctx.nontrivial(("ret", tuple(job["rs"]), tuple(map(tuple, job["calls"])), job["RD"], job["seqrep"]))
 
 
 # =============================================================================================
@@ -1383,6 +1430,23 @@ def add_random_jobs(pipe, rng, tier, base_iid):
                     ag0[rng.randrange(m["NN"])] = 1
                 pipe.execute(dict(kind="roll", iid=iid, rep=rep, cap=rng.choice([1, 2, maxcap]), start=s + 1, ag0=ag0,
                                   seed=rng.randrange(10 ** 6)))
+            if m["kind"] == "pomdp" and m["pk"] == "qb":
+                # the same policy object again, now from a given Belief that lists the states in another order and
+                # carries the probability vector of the policy's own initial belief (a different belief with equal
+                # `probs`): value-based policies read a Belief as (states, probs) pairs, whatever the order
+                lab_order = [pipe.problem(pipe.jobs[-1]).slabel.index(x) for x in pipe.problem(pipe.jobs[-1]).env.state_list]
+                for _ in range(2):
+                    perm = list(lab_order)
+                    rng.shuffle(perm)
+                    if perm == lab_order or len(perm) < 2:
+                        continue
+                    w = [0] * N
+                    for src, dst in zip(lab_order, perm):
+                        w[dst] = m["p0"][src]
+                    starts = [x for x in range(N) if w[x] > 0]
+                    pipe.execute(dict(kind="roll", iid=iid, rep=rep, cap=rng.choice([1, 2, 4]), start=rng.choice(starts) + 1,
+                                      ag0=w, agorder=perm, seed=rng.randrange(10 ** 6), gen="Random"))
+                    pipe.ctx.count("rollouts_from_beliefs_in_another_state_order")
             if m["kind"] == "mdp":
                 for n in ([1, rng.choice([2, 3, 5])] if quick else [1, 2, rng.choice([3, 5, 8]), 20]):
                     cap = rng.choice([0, 1, 2, 3, 4, 5])
@@ -1440,14 +1504,19 @@ def add_long_jobs(pipe, rng, tier):
 
 def add_return_jobs(pipe, rng, tier):
     n = 100 if tier == "quick" else 1000
+    gs = [(1, 2), (3, 4), (1, 1), (9, 10), (1, 4), (0, 1)]
     for i in range(n):
         L = rng.choice([0, 1, 2, 3, 4, 5, 6, 7])
-        GN, GD = rng.choice([(1, 2), (3, 4), (1, 1), (9, 10), (1, 4), (0, 1)])
-        if GD == 10:
-            L = min(L, 6)
         RD = rng.choice([1, 1, 2, 4])
+        seqrep = SEQREPS[i % len(SEQREPS)]
+        if seqrep == "int-array":
+            RD = 1
+        # one sequence object, returns under one to three discount rates in turn (the same rate may come twice)
+        calls = [list(rng.choice(gs)) for _ in range(rng.choice([1, 2, 2, 3]))]
+        if any(GD == 10 for _, GD in calls):
+            L = min(L, 6)
         rs = [rng.choice([-3, -2, -1, 0, 1, 2, 5]) for _ in range(L)]
-        pipe.execute(dict(kind="ret", rs=rs, GN=GN, GD=GD, RD=RD))
+        pipe.execute(dict(kind="ret", rs=rs, calls=calls, RD=RD, seqrep=seqrep))
 
 
 def run(ctx):
@@ -1530,7 +1599,7 @@ def selftest(ctx):
                 pipe.execute(dict(kind="roll", iid=iid, rep=rep, cap=cap, start=0, ag0=[], seed=r.randrange(10 ** 6)))
             if m["kind"] == "mdp":
                 pipe.execute(dict(kind="eval", iid=iid, rep=rep, n=3, cap=3, seed=r.randrange(10 ** 6)))
-        pipe.execute(dict(kind="ret", rs=[1, -2, 3], GN=1, GD=2, RD=1))
+        pipe.execute(dict(kind="ret", rs=[1, -2, 3], calls=[[1, 2], [1, 1]], RD=1, seqrep="float64-array"))
 
     ok = True
     # control: untampered -> nothing detected
